@@ -81,8 +81,7 @@ PROPS["C20"] = {
         "std::backtrace::Backtrace::capture stubbed to Backtrace::disabled() (anyhow error construction otherwise walks getenv)",
         "streams are store-written: canonical length prefixes; records < 128 bytes (stream length bound), at most one truncated tail",
     ],
-    "outside": "records larger than the stream bound; the literal 1024-byte buffer (the boundary logic is size-parametric and is "
-               "decided for buffers of 4 and 8 bytes through the public small-buffer constructor)",
+    "outside": "records larger than 2100 bytes and streams of more than 3 large records; the log scan's use of the reader at the 1024-byte scale (decided for buffers of 4 and 8 bytes through the public small-buffer constructor)",
 }
 
 def _c14(tier, seed):
@@ -500,11 +499,34 @@ def _c20_smt(tier, seed):
         path = native.write_replay("C20", "c20", "model", [], {"engine": "smt", "mode": "model-only", "obligation": ob["harness"], "message": ob["message"], "model": ob.get("counterexample")})
         ob["replay_path"] = path
         ob["replay"] = {"path": path, "outcome": "model-only", "message": "record lengths and file tail for FileMessageReader"}
-    return {"obligations": [ob], "info": {"files": c20file.FILES, "solver": "z3", "cmd": "python3-vt -m lib.main C20 (rs2smt/c20file.py)", "wall_s": round(__import__("time").time() - t0, 1)}}
+    info = {"files": c20file.FILES, "solver": "z3", "cmd": "python3-vt -m lib.main C20 (rs2smt/c20file.py, c20big.py)"}
+    from rs2smt import c20big
+    from rs2smt.common import native_scenarios
+    import os
+    bob = c20big.run(tier, seed)
+    if not os.environ.get("VERIF_NO_NATIVE"):
+        if bob.get("verdict") == "violation" and (bob.get("counterexample") or {}).get("value_lengths"):
+            name = "snapshot_big_records_" + "_".join(str(x) for x in bob["counterexample"]["value_lengths"])
+            rr = native_scenarios("C20", "violation", [name], bob["message"], {"obligation": bob["harness"], "model": bob.get("counterexample")})
+            bob["replay_path"] = rr["path"]
+            bob["replay"] = {"path": rr["path"], "outcome": rr["outcome"], "message": rr["message"]}
+            if rr["outcome"] != "reproduced":
+                bob.update({"verdict": "inconclusive", "message": "engine-S counterexample (%s) did not reproduce on the real SnapshotWriter / SnapshotReader (%s %s)" % (bob["message"], rr["outcome"], rr["message"])})
+            else:
+                bob["message"] = "%s [real SnapshotWriter / SnapshotReader: %s]" % (bob["message"], rr["message"][:300])
+        elif bob.get("verdict") == "discharged":
+            nv = native_scenarios("C20", "validate", ["snapshot_big_records_3_600_2100", "snapshot_big_records_100_1100_3", "snapshot_big_records_2100_2100_100"])
+            info["translator_validation_real_scale"] = {"outcome": nv["outcome"], "message": nv["message"], "path": nv["path"]}
+            if nv["outcome"] != "passed":
+                bob.update({"verdict": "inconclusive", "message": "the obligation is discharged but the real SnapshotWriter / SnapshotReader do not round-trip a sampled snapshot: %s" % nv["message"]})
+    info["wall_s"] = round(__import__("time").time() - t0, 1)
+    return {"obligations": [ob, bob], "info": info}
 
 
 PROPS["C20"]["smt"] = _c20_smt
 PROPS["C20"]["assumptions"] = PROPS["C20"]["assumptions"] + [
+    "s20_6: SnapshotWriter / SnapshotReader / MessageBufReader at the source's own 1024-byte chunk and buffer sizes over the file model; snapshots of 3 records with value lengths from {3, 100, 600, 2100} "
+    "(thorough: also 1100), every 4th value byte symbolic; a branch on a value byte counts as a decoding failure (lengths and tags were written from concrete numbers)",
     "s20_5: FileMessageReader is evaluated from source over the in-memory file model of rs2smt/iomodel.py (read returns the bytes that exist, read_exact fails on a short read); "
     "files of 2 (thorough: 3) records with body lengths from {1, 4, 8, 9, 12}, a prefix of 0 or 8 bytes, the end of the file or zero padding behind the records",
 ]
